@@ -33,7 +33,7 @@ ASSUMPTIONS = [
     "for a string with the right prefix and the binding present the library may fail with an OS/URL error from the binding (e.g. '/dev/' is a directory, 'iscsi://' has no target); then at most the one open/URL event on exactly that string is allowed",
     "an explicitly empty initiator name is not judged (the library substitutes the URL)",
 ]
-REQUIRED_PROBES = ["refused_missing_binding", "refused_other_string", "accepted_sgio", "accepted_iscsi", "default_initiator", "all_modules_imported"]
+REQUIRED_PROBES = ["open_refused_by_os", "refused_missing_binding", "refused_other_string", "accepted_sgio", "accepted_iscsi", "default_initiator", "all_modules_imported"]
 
 REPO = "/repo"
 STRINGS = ["/dev/sg0", "/dev/sg1", "/dev/", "/dev", "/devx", "/dev/nonexistent", "dev/sg0", " /dev/sg0",
@@ -61,6 +61,8 @@ def gen_devop(rng):
             s = rng.choice(["/dev/", "iscsi://", "/dev", "iscsi:/"]) + s
     via = rng.choice(["init_device", "init_device", "SCSIDevice", "ISCSIDevice"])
     op = {"op": "device", "s": s, "via": via, "rw": rng.random() < 0.5}
+    if rng.random() < 0.12:
+        op["open_errno"] = rng.choice([13, 13, 16, 2])        # the OS refuses the first open of the node (EACCES, EBUSY, ENOENT)
     r = rng.random()
     if r < 0.4:
         op["initiator"] = "iqn.2026-10.verif:explicit%d" % rng.randrange(9)
@@ -191,6 +193,10 @@ def execute(prog):
             s, via = op["s"], op["via"]
             ev0 = len(WORLD.events)
             opens0 = len(WORLD.handles)
+            WORLD.armed.clear()
+            fired0 = WORLD.fired.get("open_fails", 0)
+            if op.get("open_errno"):
+                WORLD.arm({"kind": "open_fails", "errno": op["open_errno"]})
             ctx0 = len(WORLD.iscsi_contexts)
             from pyscsi.utils import init_device
             kw = {}
@@ -235,7 +241,13 @@ def execute(prog):
                 foreign = [e for e in evs if e["kind"].startswith("iscsi.") or (e["kind"].startswith("vfs.") and e.get("path") not in (s, None))]
                 if foreign or len(opens) > 1:
                     viol("C19.wrong-target", w, "sgio", "only %r opened, once" % s, "events %s" % [(e["kind"], e.get("path")) for e in evs])
-                if s in SG_OK:
+                if s in SG_OK and op.get("open_errno") and WORLD.fired.get("open_fails", 0) > fired0:
+                    # the OS refused the open: the caller must learn about it, and the library must not quietly open something else
+                    WORLD.probe("open_refused_by_os")
+                    if kind == "ok" or len(opens) != 1:
+                        viol("C19.open-error-hidden", w, "sgio", "OSError(errno %d) from the one open(%r) reaches the caller" % (op["open_errno"], s),
+                             "%s; opens: %s" % ("returned a device" if kind == "ok" else repr(val)[:60], [(e.get("mode"), e.get("error")) for e in opens]))
+                elif s in SG_OK:
                     if kind != "ok" or type(val).__name__ != "SCSIDevice":
                         viol("C19.not-accepted", w, "sgio", "SCSIDevice on %r" % s, repr(val)[:100])
                     else:
